@@ -839,6 +839,83 @@ def inverse_laws(rep, c, r, backend):
     return bad
 
 
+def update_direct_sweep(rep):
+    """`update_column(s)` against the schema built directly with the new arguments: every property, set to another value
+    and set to `None` (the legal "unset" value of dtype, checks, parsers, title, description, metadata, default), through
+    both methods, there and back again; pandas and polars; components too (`update_checks` / `set_checks`)"""
+    import pandera as pa
+    import pandera.polars as pap
+    for mod, label in ((pa, "pandas"), (pap, "polars")):
+        base = dict(dtype=int, checks=[mod.Check.gt(0)], nullable=True, unique=True, coerce=True, required=False,
+                    title="T", description="D", default=3, metadata={"k": 1})
+        news = dict(dtype=[float, None], checks=[[mod.Check.lt(9)], None, []], nullable=[False], unique=[False], coerce=[False],
+                    required=[True], title=["U", None], description=["E", None], default=[4, None], metadata=[{"z": 2}, None])
+        if label == "pandas":
+            base["parsers"] = [mod.Parser(lambda s_: s_)]
+            news["parsers"] = [None, []]
+        for prop, values in news.items():
+            for v in values:
+                for method in ("update_column", "update_columns"):
+                    c = {"direct": method, "backend": label, "prop": prop, "value": repr(v)}
+                    with warnings.catch_warnings():
+                        warnings.simplefilter("ignore")
+                        try:
+                            S = mod.DataFrameSchema({"a": mod.Column(**base), "b": mod.Column(str)})
+                            snap = copy.deepcopy(S)
+                            T = S.update_column("a", **{prop: v}) if method == "update_column" else S.update_columns({"a": {prop: v}})
+                            want = mod.DataFrameSchema({"a": mod.Column(**dict(base, **{prop: v})), "b": mod.Column(str)})
+                            back = T.update_column("a", **{prop: base[prop]}) if method == "update_column" \
+                                else T.update_columns({"a": {prop: base[prop]}})
+                        except Exception as e:  # noqa: BLE001
+                            rep.property_failure(c, f"{label} {method}('a', {prop}={v!r}) raised {type(e).__name__}: {str(e)[:100]}")
+                            continue
+                    rep.case(c)
+                    rep.evaluations += 1
+                    rep.count(f"direct:{label}:{method}")
+                    if T != want or fp_schema_simple(T) != fp_schema_simple(want):
+                        rep.property_failure(c, f"{label} {method}('a', {prop}={v!r}) differs from the schema built directly "
+                                                f"with {prop}={v!r}: {fp_schema_simple(T).get(prop)!r} vs "
+                                                f"{fp_schema_simple(want).get(prop)!r}")
+                    elif S != snap:
+                        rep.property_failure(c, f"{label} {method} modified the schema it was called on")
+                    elif back != S:
+                        rep.property_failure(c, f"{label} {method}: updating {prop} back to its old value does not give the "
+                                                f"original schema")
+        # component-level transformations
+        for ctor, cname in ((lambda: mod.Column(int, mod.Check.gt(0), name="a"), "Column"),):
+            comp = ctor()
+            snap = copy.deepcopy(comp)
+            for method in ("update_checks", "set_checks"):
+                c = {"direct": method, "backend": label, "component": cname}
+                new = getattr(comp, method)([mod.Check.lt(5)])
+                rep.case(c)
+                rep.evaluations += 1
+                if comp != snap:
+                    rep.property_failure(c, f"{label} {cname}.{method} changed the checks of the component it was called on")
+                elif [x.name for x in new.checks] != ["less_than"] or new is comp:
+                    rep.property_failure(c, f"{label} {cname}.{method} did not return a new component with the new checks")
+    for cname, comp in (("SeriesSchema", pa.SeriesSchema(int, pa.Check.gt(0), name="a")), ("Index", pa.Index(int, pa.Check.gt(0), name="a"))):
+        snap = copy.deepcopy(comp)
+        for method in ("update_checks", "set_checks"):
+            c = {"direct": method, "backend": "pandas", "component": cname}
+            new = getattr(comp, method)([pa.Check.lt(5)])
+            rep.case(c)
+            rep.evaluations += 1
+            if comp != snap:
+                rep.property_failure(c, f"{cname}.{method} changed the checks of the component it was called on")
+            elif [x.name for x in new.checks] != ["less_than"] or new is comp:
+                rep.property_failure(c, f"{cname}.{method} did not return a new component with the new checks")
+
+
+def fp_schema_simple(S):
+    col = S.columns["a"]
+    out = {k: repr(getattr(col, k, None)) for k in ("dtype", "nullable", "unique", "coerce", "required", "title", "description",
+                                                      "default", "metadata")}
+    out["checks"] = repr([(x.name, x.statistics) for x in (col.checks or [])])
+    out["parsers"] = repr(len(getattr(col, "parsers", None) or []))
+    return out
+
+
 def run(tier, replay=None):
     rep = Report(PROP, tier)
     warm_up_backends()
@@ -847,13 +924,17 @@ def run(tier, replay=None):
     rep.audit["modules"] = MODULES
     if replay:
         case = json.loads(open(replay).read())["case"]
-        run_cases(rep, [case])
+        if case.get("direct"):
+            update_direct_sweep(rep)
+        else:
+            run_cases(rep, [case])
         return rep.finish(rule="replay")
     rng = rng_for(PROP)
     n = 500 if tier == "quick" else 12000
     cases = corpus_cases(PROP) + [gen_case(rng, "pandas") for _ in range(n)] + \
         [gen_case(rng, "polars") for _ in range(n // 4)]
     run_cases(rep, cases)
+    update_direct_sweep(rep)
     return rep.finish(
         rule="random schemas carrying every component attribute (checks, parsers, nullable, unique, report_duplicates, "
              "coerce, required, title, description, default, metadata, drop_invalid_rows; Index / MultiIndex with "
